@@ -325,7 +325,22 @@ func (k *c06Checker) diff(sb align.SeqBag, want rows, selected []bool) (clause, 
 	}
 	if clause != "" {
 		desc = fmt.Sprintf("got %v want %v", got, want)
+		return
 	}
+	// the transformed rows are what a lookup by name and an iteration give, too (row names are distinct)
+	for i, r := range got {
+		if byName, ok := sb.GetSequence(r.Name); !ok || byName != r.Seq {
+			return "lookup-by-name", fmt.Sprintf("row %d (%s) reads %q by index and %q (found=%v) by name", i, r.Name, r.Seq, byName, ok)
+		}
+	}
+	i := 0
+	sb.Iterate(func(name string, sequence string) bool {
+		if i < len(got) && (name != got[i].Name || sequence != got[i].Seq) && clause == "" {
+			clause, desc = "iteration", fmt.Sprintf("row %d reads %v by index and %s=%s by iteration", i, got[i], name, sequence)
+		}
+		i++
+		return false
+	})
 	return
 }
 
@@ -582,14 +597,87 @@ func (k *c06Checker) bagOps() {
 	if sb := k.build(); sb != nil {
 		var unaligned align.SeqBag
 		if k.call("Unalign", func() { unaligned = sb.Unalign() }) {
+			var again align.SeqBag
 			if clause, desc := k.diff(unaligned, un, nil); clause != "" {
 				k.viol("Unalign", clause, desc)
+			} else if clause, desc := k.diff(sb, in, nil); clause != "" {
+				k.viol("Unalign", "source-changed/"+clause, "the alignment Unalign was called on: "+desc)
+			} else if !k.call("Unalign", func() { again = sb.Unalign() }) {
+			} else if clause, desc := k.diff(again, un, nil); clause != "" {
+				k.viol("Unalign", "second-call/"+clause, desc)
 			} else if sameRows(in, un) {
 				k.c.Outcome("Unalign:no-gap")
 			} else {
 				k.c.Outcome("Unalign:gaps-removed")
 			}
 		}
+	}
+
+	// two operations on one object: case folding, then a strand or gap operation on it (and the reverse
+	// order); reverse-complementing preserves case, so the expected rows are those of the model composed
+	if ascii && all == c06Defined && !allHasU {
+		for _, fc := range []struct {
+			name  string
+			apply func(align.SeqBag)
+			f     func(byte) byte
+		}{{"ToUpper", func(sb align.SeqBag) { sb.ToUpper() }, upper}, {"ToLower", func(sb align.SeqBag) { sb.ToLower() }, c06Lower}} {
+			for i := -1; i < n; i++ { // -1: all rows
+				want := in.clone()
+				for r := range want {
+					want[r].Seq = c06MapBytes(in[r].Seq, fc.f)
+					if i < 0 || i == r {
+						want[r].Seq = c06MapBytes(rc[r].Seq, fc.f)
+					}
+				}
+				for _, order := range []string{"fold-first", "strand-first"} {
+					sb := k.build()
+					if sb == nil {
+						return
+					}
+					var err error
+					op := fc.name + "+ReverseComplement"
+					strandOp := func() {
+						if i < 0 {
+							err = sb.ReverseComplement()
+						} else {
+							err = sb.ReverseComplementSequences(in[i].Name)
+						}
+					}
+					if !k.call(op, func() {
+						if order == "fold-first" {
+							fc.apply(sb)
+							strandOp()
+						} else {
+							strandOp()
+							fc.apply(sb)
+						}
+					}) {
+						return
+					}
+					if err != nil {
+						k.viol(op, "unexpected-error/"+order, err.Error())
+						continue
+					}
+					if clause, desc := k.diff(sb, want, nil); clause != "" {
+						k.viol(op, "composition/"+order+"/"+clause, desc)
+					}
+				}
+			}
+			// fold, then un-align
+			if sb := k.build(); sb != nil {
+				var u align.SeqBag
+				if k.call(fc.name+"+Unalign", func() { fc.apply(sb); u = sb.Unalign() }) {
+					want := un.clone()
+					for r := range want {
+						want[r].Seq = c06MapBytes(un[r].Seq, fc.f)
+					}
+					if clause, desc := k.diff(u, want, nil); clause != "" {
+						k.viol(fc.name+"+Unalign", "composition/"+clause, desc)
+					}
+				}
+			}
+		}
+		k.c.Outcome("composition:two-operations")
 	}
 
 	changedByStrand := all == c06Defined && !sameRows(in, rc)
@@ -630,7 +718,7 @@ func init() {
 	mc.Register(&mc.Prop{
 		ID:    "C06",
 		Level: "exploration",
-		Rule: cliStreamRule[1:] + " " + "(sequence sets of 1-2 rows, total length <= 4, over {A,c,-,0xE9,0xC3,0xA9} with at least one byte >= 0x80: ToUpper/ToLower/Unalign keep row lengths, fold the 7-bit bytes exactly and are idempotent;) bounded-exhaustive enumeration; on every case: ReverseComplement and ReverseComplementSequences for every subset of {row names} + {one unknown name}, each applied twice (involution), " +
+		Rule: cliStreamRule[1:] + " " + "(on every case also: two operations on one object - ToUpper/ToLower then ReverseComplement / ReverseComplementSequences(one row) / Unalign, and the strand operation first - against the composed model; the alignment Unalign was called on is unchanged and a second Unalign gives the same rows; every observed row is the same by index, by name and by iteration;) (sequence sets of 1-2 rows, total length <= 4, over {A,c,-,0xE9,0xC3,0xA9} with at least one byte >= 0x80: ToUpper/ToLower/Unalign keep row lengths, fold the 7-bit bytes exactly and are idempotent;) bounded-exhaustive enumeration; on every case: ReverseComplement and ReverseComplementSequences for every subset of {row names} + {one unknown name}, each applied twice (involution), " +
 			"ToUpper and ToLower each applied twice (idempotence), Unalign; results compared row by row (names, order, residues, Length()) with the IUPAC complement derived from base sets. Cases: " +
 			"(i) all 256 byte values as a 1x1 alignment with the alphabet forced to nucleotide, also through align.Complement/Reverse and Sequence.Complement/Reverse; " +
 			"(ii) every single row of length 0..4 over the 35 symbols ACGTRYSWKMBDHVN acgtryswkmbdhvn - . * U u and of length 5..6 (quick) / 5..7 (thorough) over {A,c,K,m,B,-,.,*}, also through the Sequence-level functions; " +
